@@ -353,7 +353,21 @@ func TestVerifRuleScanKern(t *testing.T) {
 	rng := rand.New(rand.NewSource(verifutil.Seed()))
 	every := verifutil.EnvInt("VERIF_RS_EVERY", 1)
 	log := verifLogger()
+	only := os.Getenv("VERIF_RS_ONLY") // "domain": only programs that mention a domain condition
 	rsStream(t, every, func(i int, v *rsVector) {
+		if only == "domain" {
+			has := false
+			for _, r := range v.Prog {
+				for _, c := range r.Conds {
+					if c.Fn == "domain" {
+						has = true
+					}
+				}
+			}
+			if !has {
+				return
+			}
+		}
 		text := rsRender(v, rng)
 		b, err := verifCompileRouting(text, rsOutIds, k.objs, true)
 		if err != nil {
